@@ -1,4 +1,4 @@
-import Iauthd.Proto.Table
+import Iauthd.Proto.Names
 /-
   Property C01 — "One verdict per announced client, then silence" (model part).
 
@@ -40,6 +40,36 @@ theorem C01_unknown_id_inert (s : State) (raw : Bytes) (a0 : Bytes) (rest : List
   have hin : ((tokenize raw).id != -1) = true := by rw [bne, hid2]; rfl
   simp only [hc2, hid2, Bool.or_false, Bool.false_eq_true, if_false, hnot, Option.isNone_none,
     hcn, hin, Bool.and_self, if_true, pure, Except.pure]
+
+/-- every line a step emits is a global message or is about (carries the id, or the routing
+    tag, of) a request that was in the table when the step began; with `C01_invariant` and
+    `C01_verdict_removes`: once the verdict is out, nothing names that client again until the
+    server announces the id anew -/
+theorem C01_names_live (s : State) (hi : Inv s) (raw : Bytes) (s' : State) (out : List Bytes)
+    (h : stepLine s raw = .ok (s', out)) : ∀ l ∈ out, Global l ∨ ∃ r ∈ s.reqs, About r.client l :=
+  stepLine_names s hi raw s' out h
+
+/-- the same for a timer expiry: only the request whose timer fired can be named -/
+theorem C01_timeout_names (s : State) (id : Int) (s' : State) (out : List Bytes) (fired : Bool)
+    (h : stepTimeout s id = .ok (s', out, fired)) : ∀ l ∈ out, ∃ r ∈ s.reqs, About r.client l := by
+  unfold stepTimeout at h
+  split at h
+  · rename_i r hf
+    split at h
+    · simp only [bind, Except.bind] at h
+      split at h
+      · cases h
+      · rename_i v hv
+        obtain ⟨s1, o1⟩ := v
+        simp only [pure, Except.pure, Except.ok.injEq, Prod.mk.injEq] at h
+        obtain ⟨_, rfl, _⟩ := h
+        intro l hl
+        exact ⟨r, (findReq_mem hf).1,
+          withReq_about s r _ (fun c' hc => reqEvent_emits _ _ _ _ hc) s1 o1 hv l hl⟩
+    · simp only [pure, Except.pure, Except.ok.injEq, Prod.mk.injEq] at h
+      obtain ⟨_, rfl, _⟩ := h; intro l hl; simp at hl
+  · simp only [pure, Except.pure, Except.ok.injEq, Prod.mk.injEq] at h
+    obtain ⟨_, rfl, _⟩ := h; intro l hl; simp at hl
 
 /-- non-vacuity: the only hypothesis (the class module is loaded together with xquery, as its
     constructor's `module_depends` enforces) holds for all three module sets of the daemon;
